@@ -15,6 +15,8 @@ Obligations
         W4 two hard-coded rules that differ in the unit only: one of them is computed from the other
            alone and E1 proves it equals the sibling times the factor (otherwise supplying one of
            them as data would break the relation; replayed through the public API)
+        W5 an aggregate with a time unit whose sibling unit is supplied as data is the conversion of the
+           supplied column (exhaustive over the aggregates of every function-set class)
   B   bounded stand-in: the API computes x_y, x_m, x_w, x_d together consistently and accepts
       an input in another unit (never counted as proved)
 """
@@ -183,6 +185,41 @@ def _wiring_worker(job):
                 else:
                     st, detail = "refuted", f"{new} is neither a function nor a data column at {d}"
                 out["items"][str(key)] = {"name": f"W1:{name}->{new}", "status": st, "detail": detail, "date": str(d)}
+        # W5: an aggregate (by group or by pointer) with a time unit whose other-unit sibling is SUPPLIED as
+        # data becomes the conversion of the supplied column (the aggregate is not computed next to it):
+        # one real load of the universe with one sibling column per aggregate
+        aggs = {}
+        for name, f in fno.items():
+            cls = venv.classify_node(name, f)
+            p = parse_name(name, groupings, units)
+            if cls in ("aggregate_by_group", "aggregate_by_p_id") and p is not None:
+                base, unit, group = p
+                sib_u = "y" if unit != "y" else "m"
+                sib = f"{base}{sib_u}{group}"
+                key = ("W5", name, cls)
+                if key not in seen and sib not in data_cols and (sib not in allf or venv.classify_node(sib, allf[sib]) == "time_conversion"):
+                    aggs[name] = (sib, unit, sib_u, key)
+        if aggs:
+            import warnings
+
+            from _gettsim.functions_loader import load_and_check_functions
+
+            try:
+                with warnings.catch_warnings():
+                    warnings.simplefilter("ignore")
+                    a2, _ = load_and_check_functions(functions_raw=e.functions, targets=sorted(aggs), data_cols=sorted(data_cols | {v[0] for v in aggs.values()}), aggregate_by_group_specs={}, aggregate_by_p_id_specs={})
+            except Exception as ex:  # noqa: BLE001
+                a2 = None
+                out["items"][str(("W5", "load", str(d)))] = {"name": f"W5: universe with supplied sibling columns loads@{d}", "status": "unsupported", "detail": repr(ex)[:200], "date": str(d)}
+            for name, (sib, unit, sib_u, key) in aggs.items():
+                if a2 is None:
+                    break
+                seen.add(key)
+                out["n_checked"] += 1
+                g = a2.get(name)
+                ok = g is not None and venv.classify_node(name, g) == "time_conversion" and list(inspect.signature(g).parameters) == [sib]
+                out["items"][str(key)] = {"name": f"W5:{name} is the conversion of the supplied column {sib}", "status": "discharged" if ok else "refuted",
+                                          "detail": "" if ok else f"with {sib} in the data, {name} is {venv.classify_node(name, g) if g is not None else 'absent'} reading {list(inspect.signature(g).parameters) if g is not None else None}: {name} and {sib} no longer differ by the factor", "date": str(d)}
         # W4: explicit (hard-coded) rules that differ in the time unit only
         by = {}
         for name, func in e.functions.items():
